@@ -289,7 +289,10 @@ def run_case(case):
                             "kind": "sol-sample-parameter", "mech": "C09|sol.sample-of-parameter",
                             "detail": "sol.sample(%s) = %s, assigned %s" % (p["name"], C.short(arr), C.short(want))})
         except Exception as ex:  # noqa
-            res["violations"].append(C.exc_violation(ID, C.RockitRaised("second solve", ex), "history"))
+            # Opti cannot report values of symbols that appear in no row and not in the objective (an unused
+            # include_last column of a generated problem): nothing to compare then
+            if "do not appear in the constraints and objective" not in str(ex):
+                res["violations"].append(C.exc_violation(ID, C.RockitRaised("second solve", ex), "history"))
     res["nontrivial"] = res["counters"]["nlp_compares"] > 0
     res["sample"] = {"spec": C.spec_digest(spec), "events": [(e["phase"], e["name"]) for e in events],
                      "final_values": {k: C.short(v) for k, v in list(shadow.items())[:3]}}
